@@ -69,7 +69,28 @@ def Box.intersection (b bp : Box α) : Option (Box α) :=
   let i : Box α := ⟨⟨max b.mn.x bp.mn.x, max b.mn.y bp.mn.y⟩, ⟨min b.mx.x bp.mx.x, min b.mx.y bp.mx.y⟩⟩
   if decide (i.mx.x ≤ i.mn.x) || decide (i.mx.y ≤ i.mn.y) then none else some i
 
+/-- `geom.WithinStatus` -/
+inductive WithinStatus | outside | inside | onEdge
+deriving DecidableEq, Repr, Inhabited
+
+/-- `p.Equals(p2)` (`==` on float64 is equality of values) -/
+def ptEquals [DecidableEq α] (p p2 : Pt α) : Bool := decide (p.x = p2.x) && decide (p.y = p2.y)
+
+/-- `b.Within(bp)` for a `*Bounds` argument (the first branch of the method) -/
+def Box.within [DecidableEq α] (b bp : Box α) : WithinStatus :=
+  if ptEquals b.mn bp.mn && ptEquals b.mx bp.mx then .onEdge
+  else if decide (b.mn.x ≥ bp.mn.x) && decide (b.mn.y ≥ bp.mn.y) && decide (b.mx.x ≤ bp.mx.x) && decide (b.mx.y ≤ bp.mx.y)
+  then .inside
+  else .outside
+
 end box
+
+/-- `b.Area()`, over any coordinate type with `-` and `*` (float64 rounding is not modelled here) -/
+def Box.area [Sub α] [Mul α] (b : Box α) : α := (b.mx.x - b.mn.x) * (b.mx.y - b.mn.y)
+
+/-- `b.Centroid()` -/
+def Box.centroid [Add α] [Div α] [OfNat α 2] (b : Box α) : Pt α :=
+  ⟨(b.mn.x + b.mx.x) / 2, (b.mn.y + b.mx.y) / 2⟩
 
 /-! ## Len() -/
 
